@@ -90,6 +90,8 @@ REQUIRED_THEOREMS = ["ccm_roundtrip", "tamper_detected_iff_tag_mismatch", "optio
                      "interleaved_contexts_roundtrip", "response_ctx_is_request_ctx_impl",
                      "unprotect_protect_response_for", "observe_request_response_own_piv", "plain_response_request_nonce",
                      "rejected_request_keeps_bindings", "request_nonce_at_most_once", "sequence_roundtrip_server",
+                     "qblock_is_class_e", "outer_class_e_discarded", "oversized_oscore_option_rejected",
+                     "plain_request_never_reaches_oscore_only_handler",
                      "response_never_under_own_request_nonce",
                      "observe_request_own_piv_impl"]
 RULE = ("exchanges (one request and 0-3 responses/notifications per line) between a client and a server OSCORE context set up "
@@ -828,8 +830,8 @@ def gen_findctx_line(rng):
 
 
 # ---- outer options added to a protected datagram on the path (op `oinj`; RFC 8613 8.2 / 8.4 step 1) ----
-CLASS_E = [1, 4, 5, 6, 8, 11, 12, 14, 15, 17, 20, 23, 27, 28, 60, 252, 258, 292]
-OTHER_OUTER = [2, 10, 13, 19, 21, 24, 30, 31, 40, 65, 268, 269, 300, 2048, 2049, 65000, 65001]
+CLASS_E = [1, 4, 5, 6, 8, 11, 12, 14, 15, 17, 20, 23, 27, 28, 60, 252, 258, 292, 19, 31]     # 19 / 31: RFC 9177 4.1 (round R14c)
+OTHER_OUTER = [2, 10, 13, 21, 24, 30, 40, 65, 268, 269, 300, 2048, 2049, 65000, 65001]
 
 
 def gen_oinj_line(rng):
@@ -877,6 +879,51 @@ def gen_oinj_line(rng):
         fmt_params(secret, salt, idctx, cid, sid), fmt_params(secret, salt, idctx, sid, cid), min(gen_piv(rng), MAXSEQ), min(gen_piv(rng), MAXSEQ),
         -1 if rng.random() < 0.5 else rng.randint(0, 0xFFFF), hx(req), hx(resp), rng.choice([0, 1]), which,
         ",".join("%d:%s" % (n, hx(v)) for n, v in inj))
+
+
+# ---- round R14c: OSCORE option made longer on the path (op `olen`), requests through coap_dispatch() (op `odisp`) ----
+def gen_olen_line(rng):
+    """a protected request or response whose OSCORE option VALUE gets `extra` bytes appended on the path (ciphertext untouched):
+    mostly 256 / 257 / 300 / 512 - the lengths at which a one-byte length counter wraps to 0 / 1 / 44 / 0, i.e. to the genuine
+    value when the genuine bytes come first -, else 1..255.  RFC 8613 2: the option is 0..255 bytes long."""
+    while True:
+        secret, salt, idctx, cid, sid = gen_params(rng)
+        if idctx is None or len(idctx) <= 34:
+            break
+    token = G.rbytes(rng, rng.choice([0, 1, 2, 4, 8]))
+    req = G.encode("udp", rng.choice([0, 1]), rng.choice(REQ_CODES), rng.randint(0, 0xFFFF), token, gen_options(rng, True, False),
+                   gen_payload(rng)[:100])
+    resp = G.encode("udp", rng.choice([0, 1, 2]), rng.choice([65, 67, 68, 69, 132]), rng.randint(0, 0xFFFF), token, [], gen_payload(rng)[:100])
+    c = rng.random()
+    extra = rng.choice([256, 256, 257, 300, 512, 768]) if c < 0.7 else rng.randint(240, 270) if c < 0.85 else rng.randint(1, 40)
+    return "olen %s %s %d %d %d %s %s %d %s %d %02x" % (
+        fmt_params(secret, salt, idctx, cid, sid), fmt_params(secret, salt, idctx, sid, cid), min(gen_piv(rng), MAXSEQ), min(gen_piv(rng), MAXSEQ),
+        -1, hx(req), hx(resp), rng.choice([0, 1]), rng.choice(["q", "r", "r"]), extra, rng.choice([0, 0, 1, 8, 9, 0x19, rng.randrange(256)]))
+
+
+def gen_odisp_line(rng, scenario=None):
+    """ONE server session, resource /o is COAP_RESOURCE_FLAGS_OSCORE_ONLY, /p is not: protected (o) and plain (p) requests in any
+    order through coap_dispatch().  The property: a plain request never runs the handler of /o, whatever came before."""
+    secret, salt, idctx, cid, sid = gen_params(rng)
+    while idctx is not None and len(idctx) > 34:
+        secret, salt, idctx, cid, sid = gen_params(rng)
+    wrong = rng.random() < 0.1          # the client's context does not match: its protected requests are rejected
+    csecret = G.rbytes(rng, 16) if wrong else secret
+    steps = []
+    shapes = [["o/o", "p/o"], ["p/o", "o/o", "p/o"], ["o/p", "p/o"], ["o/o", "p/p", "p/o", "o/o"], ["p/o"], ["p/p", "o/o", "p/p"]]
+    if scenario is not None and scenario < len(shapes):
+        plan = shapes[scenario]
+    else:
+        plan = [rng.choice(["o", "o", "p", "p", "p"]) + "/" + rng.choice(["o", "o", "p"]) for _ in range(rng.randint(2, 7))]
+    mid = rng.randint(0, 0xFF00)
+    for k, st in enumerate(plan):
+        how, res = st.split("/")
+        code = rng.choice([1, 2, 3, 4])
+        token = G.rbytes(rng, rng.choice([1, 2, 4, 8]))
+        req = G.encode("udp", rng.choice([0, 1]), code, mid + k, token, [(11, res.encode())], b"" if code in (1, 4) else gen_payload(rng)[:40])
+        steps.append("%s %s" % (how, hx(req)))
+    return "odisp %s %s %d %d %s" % (fmt_params(csecret, salt, idctx, cid, sid), fmt_params(secret, salt, idctx, sid, cid),
+                                    min(gen_piv(rng), MAXSEQ - 10), 0, " ".join(steps))
 
 
 # ---- several clients (contexts) behind ONE server session (op `oscx`; D14.19) -------------------------
@@ -1056,6 +1103,10 @@ def generate(ctx, escalate=False):
         out.append(gen_oscx_line(rng, scenario=i if i < 32 else None))
     for i in range(400 * k):
         out.append(gen_oend_line(rng, scenario=i % 7 if i < 70 else None))
+    for i in range(200 * k):
+        out.append(gen_olen_line(rng))
+    for i in range(300 * k):
+        out.append(gen_odisp_line(rng, scenario=i if i < 6 else None))
     return out
 
 
@@ -1227,6 +1278,42 @@ def judge(ctx, c):
         if mu and "opts=" + mu.group(1) != (m or "").strip():
             return ("tie", "merged options: implementation opts=%s but model M (decryptSkips / decryptMerge) says %s" % (short(mu.group(1)), short(m)))
         return None
+    if op == "olen":
+        # impl: `dg=<datagram> u=<delivery>`; S: `len=<length of the OSCORE option value> u=<verdict>`; M: `len= dec=<oscore_decode_option_value>`
+        if i == "setup-fail" and m == "setup-fail":
+            return None
+        iu = (i or "").partition(" u=")[2]
+        ln = re.search(r"len=(\d+)", s or "")
+        su = (s or "").partition(" u=")[2]
+        rejected = iu in ("rej", "unparsable")
+        if ln and int(ln.group(1)) > 255:
+            # the property directly (RFC 8613 2: 0..255 bytes; "any modification of the OSCORE option makes the recipient reject")
+            if not rejected:
+                return ("spec", "OSCORE option of %s bytes accepted: %s" % (ln.group(1), short(iu)))
+            if su != "rej":
+                return ("tie", "the reference accepts an OSCORE option of %s bytes" % ln.group(1))
+            if "dec=rej" not in (m or ""):
+                return ("tie", "model M (oscore_decode_option_value) accepts an OSCORE option of %s bytes" % ln.group(1))
+            return None
+        if (rejected and su == "rej") or iu == su:
+            return None
+        return ("spec", "OSCORE option value extended on the path: implementation %s but the RFC 8613 reference gives %s" % (short(iu), short(su)))
+    if op == "odisp":
+        # impl / M: ` <o|p>:h<handler runs>,<response written>` per step; S: ` <o|p>:h<0|1>` = must the handler run
+        fi, fs = (i or "").split(" "), (s or "").split(" ")
+        if len(fi) != len(fs):
+            return ("tie", "odisp: %s against %s" % (short(i), short(s)))
+        for k, (a, b) in enumerate(zip(fi, fs)):
+            if a.split(",")[0] != b:
+                return ("spec", "request %d through coap_dispatch(): implementation %s but %s" % (
+                    k, a, "an unprotected request must be rejected without invoking the handler of an OSCORE only resource"
+                    if b == "p:h0" else "the property says %s" % b))
+            if a.startswith("p:") and a.endswith("E"):
+                return ("spec", "request %d: a protected response to an unprotected request (%s)" % (k, a))
+        if i != m:
+            return ("tie", "coap_dispatch / OSCORE only test: implementation %s but model M (Model/OscoreDispatch.lean) says %s" % (
+                first_diff(i, m), first_diff(m, i)))
+        return None
     if op == "findctx":
         # impl / M: result of every store operation and lookup + the final store; S: for the lookups of the kind
         # coap_oscore_decrypt_pdu does, the first (context, recipient) pair the request names (`~`: the store is ambiguous)
@@ -1307,6 +1394,10 @@ def nontrivial(c):
         return "uresp=ok" in i
     if op == "oinj":
         return " u=ok" in i
+    if op == "olen":
+        return " u=" in i
+    if op == "odisp":
+        return ":h1" in i
     if op == "findctx":
         return re.search(r" f:\d", i) is not None
     if op == "tamper":
@@ -1331,6 +1422,10 @@ def classify(c):
         nums = [int(x.split(":")[0]) for x in w[18].split(",")]
         return "oinj:" + w[17] + (":classE" if any(n in CLASS_E for n in nums) else "") + \
                (":other" if any(n not in CLASS_E for n in nums) else "") + (":rejected" if "u=rej" in i else "")
+    if op == "olen":
+        return "olen:" + w[17] + (":over255" if int(w[18]) >= 256 else ":short") + (":rejected" if i.endswith(("u=rej", "u=unparsable")) else "")
+    if op == "odisp":
+        return "odisp" + (":plain-after-oscore" if re.search(r"o:h1.* p:", i) else "") + (":rejected" if "o:h0" in i else "")
     if op == "oscx":
         tr = i.partition(" |")[2]
         sel = re.findall(r" s:(\S+)", tr)
